@@ -64,7 +64,12 @@ def gen_c09_stack(rng):
     container = None if mv else rng.choice([None, None, None, "concat", "interleaved", "concat_shared"])
     if mix and container in ("concat", "concat_shared"):
         container = "interleaved"
-    return {"root": {"kind": "tensor", "n": n}, "layers": layers, "collators": collators, "container": container}
+    over = []
+    if container in ("concat", "concat_shared") and rng.random() < 0.5:
+        over = [rng.choice([{"t": "xtw", "transform": {"t": "leaf", "name": "KDAdditiveUniformNoise"}}, {"t": "labelsmooth", "s": 0.0},
+                            {"t": "xtw", "transform": {"t": "leaf", "name": "KDRandomHorizontalFlip"}}])]
+    return {"root": {"kind": "tensor", "n": n}, "layers": layers, "collators": collators, "container": container, "over": over,
+            "via_interleaved_sampler": container is None and not mv and rng.random() < 0.2}
 
 
 def build_c09(stack, mode, return_ctx):
@@ -99,6 +104,12 @@ def build_c09(stack, mode, return_ctx):
         # e.g. a weakly and a strongly augmented view of one dataset: two wrapper stacks over the same root object
         other = W.SubsetWrapper(W.XTransformWrapper(ds.root_dataset, C.build({"t": "leaf", "name": "KDAdditiveGaussianNoise"})), indices=[0, 1, 2])
         ds = KDConcatDataset([ds, other])
+    for layer in stack.get("over") or []:
+        # wrappers stacked on top of the concat container
+        if layer["t"] == "xtw":
+            ds = W.XTransformWrapper(ds, C.build(layer["transform"]))
+        else:
+            ds = S.apply_layer(ds, layer)
     mw = W.ModeWrapper(ds, mode=mode, return_ctx=return_ctx)
     if cols:
         collate = KDComposeCollator(collators=mw.collators, dataset_mode=mode, return_ctx=return_ctx)
@@ -197,8 +208,12 @@ class Spec(core.PropSpec):
 
     def shrink_candidates(self, plan):
         st = plan["stack"]
+        if st.get("over"):
+            yield core._set(plan, ["stack", "over"], [])
         if st["container"]:
-            yield core._set(plan, ["stack", "container"], None)
+            q = core._set(plan, ["stack", "container"], None)
+            q["stack"]["over"] = []
+            yield q
         if st["collators"]:
             yield core._set(plan, ["stack", "collators"], [])
             for i in range(len(st["collators"])):
@@ -263,7 +278,20 @@ class Spec(core.PropSpec):
             batches[-1] = [n_main + j % 3 for j in range(bs)]  # one pass over the second dataset, never mixed with the first
         elif stack["container"] in ("concat", "concat_shared"):
             batches[-1] = [n_main + j % 3 for j in range(bs)]
-        forked = {p: (owner, fingerprint(g)) for p, owner, g in walk((ds, collate))}
+        isamp = None
+        if stack.get("via_interleaved_sampler"):
+            from kappadata.samplers import InterleavedSampler
+            from torch.utils.data import SequentialSampler
+            try:
+                with main.on_cpu():
+                    isamp = InterleavedSampler(main_sampler=SequentialSampler(ds), batch_size=min(bs, n), drop_last=False, epochs=1,
+                                               main_collator=collate)
+            except Exception as e:
+                out.rejected = True
+                out.ev("rejected", type(e).__name__)
+                return out
+        inherited = (isamp.dataset, isamp.collator) if isamp is not None else (ds, collate)
+        forked = {p: (owner, fingerprint(g)) for p, owner, g in walk(inherited)}
         out.count("logical:reachable_generators", len(forked))
         sessions = []  # per loader epoch: dict(beta, hook fingerprints per worker, trajectories, delivered hashes)
 
@@ -285,6 +313,20 @@ class Spec(core.PropSpec):
                 def post_batch_probe(worker):
                     rec["traj"].setdefault(worker.wid, []).append({p: fingerprint(g) for p, owner, g in walk((worker.dataset, worker.collate_fn))})
 
+            if stack.get("via_interleaved_sampler"):
+                # the library builds the loader itself (InterleavedSampler.get_data_loader); the base seed then comes from the main
+                # process's global torch RNG, which is set to beta here
+                import kappadata.samplers.interleaved_sampler as ils
+                from simkit.simloader import dataloader_seam
+                with main.on_cpu():
+                    torch.manual_seed(beta)
+                    with dataloader_seam(Ld, ils):
+                        for b in isamp.get_data_loader(num_workers=K):
+                            rec["delivered"].append(h(b))
+                rec["sched"] = Ld.trace
+                sessions.append(rec)
+                out.count("fault:worker_respawn", K)
+                return rec
             kw = dict(batch_sampler=batches, num_workers=K, collate_fn=collate, generator=torch.Generator().manual_seed(beta))
             if plan["hook"]:
                 kw["worker_init_fn"] = ds.worker_init_fn
@@ -407,6 +449,10 @@ class Spec(core.PropSpec):
         out.tags.append(f"K={K}")
         if stack["container"]:
             out.tags.append("container:" + stack["container"])
+        if stack.get("over"):
+            out.tags.append("wrapper-above-concat")
+        if stack.get("via_interleaved_sampler"):
+            out.tags.append("loader-built-by-interleaved-sampler")
         for c in stack["collators"]:
             out.tags.append("collator:" + c)
         if any(len({id(g) for p, o, g in walk((ds, collate))}) < n_gen for _ in [0]):
